@@ -3269,6 +3269,7 @@ struct RegistryT<
 	HFSM2_CONSTEXPR(14)	bool  isActive				(const StateID stateId)	  const noexcept;
 	HFSM2_CONSTEXPR(14)	bool  isResumable			(const StateID stateId)	  const noexcept;
 
+	HFSM2_CONSTEXPR(14)	bool  isPendingActive		(const StateID stateId)	  const noexcept;
 	HFSM2_CONSTEXPR(14)	bool  isPendingEnter		(const StateID stateId)	  const noexcept;
 	HFSM2_CONSTEXPR(14)	bool  isPendingChange		(const StateID stateId)	  const noexcept;
 	HFSM2_CONSTEXPR(14)	bool  isPendingExit			(const StateID stateId)	  const noexcept;
@@ -3386,58 +3387,51 @@ RegistryT<ArgsT<TG_, TSL_, TRL_, NCC_, NOC_, NOU_, TRO_ HFSM2_IF_SERIALIZATION(,
 template <typename TG_, typename TSL_, typename TRL_, Long NCC_, Long NOC_, Long NOU_, typename TRO_ HFSM2_IF_SERIALIZATION(, Long NSB_) HFSM2_IF_PLANS(, Long NTC_), typename TTP_>
 HFSM2_CONSTEXPR(14)
 bool
-RegistryT<ArgsT<TG_, TSL_, TRL_, NCC_, NOC_, NOU_, TRO_ HFSM2_IF_SERIALIZATION(, NSB_) HFSM2_IF_PLANS(, NTC_), TTP_>>::isPendingEnter(const StateID stateId) const noexcept {
-	if (HFSM2_CHECKED(stateId < STATE_COUNT))
+RegistryT<ArgsT<TG_, TSL_, TRL_, NCC_, NOC_, NOU_, TRO_ HFSM2_IF_SERIALIZATION(, NSB_) HFSM2_IF_PLANS(, NTC_), TTP_>>::isPendingActive(const StateID stateId) const noexcept {
+	// would the state be active once the requested sub-states are applied?
+	if (HFSM2_CHECKED(stateId < STATE_COUNT)) {
 		for (Parent parent = stateParents[stateId];
 			 parent;
 			 parent = forkParent(parent.forkId))
 		{
 			HFSM2_ASSERT(parent.forkId != 0);
 
-			if (parent.forkId > 0)
-				return parent.prong != compoActive	 [parent.forkId - 1] &&
-					   parent.prong == compoRequested[parent.forkId - 1];
+			if (parent.forkId > 0) {
+				const Prong requested = compoRequested[parent.forkId - 1];
+				const Prong target	  = requested != INVALID_PRONG ?
+					requested : compoActive[parent.forkId - 1];
+
+				if (target != parent.prong)
+					return false;
+			}
 		}
 
+		return compoActive	 [ROOT_ID] != INVALID_PRONG
+			|| compoRequested[ROOT_ID] != INVALID_PRONG;
+	}
+
 	return false;
+}
+
+template <typename TG_, typename TSL_, typename TRL_, Long NCC_, Long NOC_, Long NOU_, typename TRO_ HFSM2_IF_SERIALIZATION(, Long NSB_) HFSM2_IF_PLANS(, Long NTC_), typename TTP_>
+HFSM2_CONSTEXPR(14)
+bool
+RegistryT<ArgsT<TG_, TSL_, TRL_, NCC_, NOC_, NOU_, TRO_ HFSM2_IF_SERIALIZATION(, NSB_) HFSM2_IF_PLANS(, NTC_), TTP_>>::isPendingEnter(const StateID stateId) const noexcept {
+	return !isActive(stateId) && isPendingActive(stateId);
 }
 
 template <typename TG_, typename TSL_, typename TRL_, Long NCC_, Long NOC_, Long NOU_, typename TRO_ HFSM2_IF_SERIALIZATION(, Long NSB_) HFSM2_IF_PLANS(, Long NTC_), typename TTP_>
 HFSM2_CONSTEXPR(14)
 bool
 RegistryT<ArgsT<TG_, TSL_, TRL_, NCC_, NOC_, NOU_, TRO_ HFSM2_IF_SERIALIZATION(, NSB_) HFSM2_IF_PLANS(, NTC_), TTP_>>::isPendingChange(const StateID stateId) const noexcept {
-	if (HFSM2_CHECKED(stateId < STATE_COUNT))
-		for (Parent parent = stateParents[stateId];
-			 parent;
-			 parent = forkParent(parent.forkId))
-		{
-			HFSM2_ASSERT(parent.forkId != 0);
-
-			if (parent.forkId > 0)
-				return compoRequested[parent.forkId - 1] !=
-					   compoActive	 [parent.forkId - 1];
-		}
-
-	return false;
+	return isActive(stateId) != isPendingActive(stateId);
 }
 
 template <typename TG_, typename TSL_, typename TRL_, Long NCC_, Long NOC_, Long NOU_, typename TRO_ HFSM2_IF_SERIALIZATION(, Long NSB_) HFSM2_IF_PLANS(, Long NTC_), typename TTP_>
 HFSM2_CONSTEXPR(14)
 bool
 RegistryT<ArgsT<TG_, TSL_, TRL_, NCC_, NOC_, NOU_, TRO_ HFSM2_IF_SERIALIZATION(, NSB_) HFSM2_IF_PLANS(, NTC_), TTP_>>::isPendingExit(const StateID stateId) const noexcept {
-	if (HFSM2_CHECKED(stateId < STATE_COUNT))
-		for (Parent parent = stateParents[stateId];
-			 parent;
-			 parent = forkParent(parent.forkId))
-		{
-			HFSM2_ASSERT(parent.forkId != 0);
-
-			if (parent.forkId > 0)
-				return parent.prong == compoActive	 [parent.forkId - 1] &&
-					   parent.prong != compoRequested[parent.forkId - 1];
-		}
-
-	return false;
+	return isActive(stateId) && !isPendingActive(stateId);
 }
 
 template <typename TG_, typename TSL_, typename TRL_, Long NCC_, Long NOC_, Long NOU_, typename TRO_ HFSM2_IF_SERIALIZATION(, Long NSB_) HFSM2_IF_PLANS(, Long NTC_), typename TTP_>
@@ -3671,6 +3665,7 @@ struct RegistryT<
 	HFSM2_CONSTEXPR(14)	bool  isActive			(const StateID stateId)	  const noexcept;
 	HFSM2_CONSTEXPR(14)	bool  isResumable		(const StateID stateId)	  const noexcept;
 
+	HFSM2_CONSTEXPR(14)	bool  isPendingActive	(const StateID stateId)	  const noexcept;
 	HFSM2_CONSTEXPR(14)	bool  isPendingEnter	(const StateID stateId)	  const noexcept;
 	HFSM2_CONSTEXPR(14)	bool  isPendingChange	(const StateID stateId)	  const noexcept;
 	HFSM2_CONSTEXPR(14)	bool  isPendingExit		(const StateID stateId)	  const noexcept;
@@ -3774,46 +3769,49 @@ RegistryT<ArgsT<TG_, TSL_, TRL_, NCC_, 0, 0, TRO_ HFSM2_IF_SERIALIZATION(, NSB_)
 template <typename TG_, typename TSL_, typename TRL_, Long NCC_, typename TRO_ HFSM2_IF_SERIALIZATION(, Long NSB_) HFSM2_IF_PLANS(, Long NTC_), typename TTP_>
 HFSM2_CONSTEXPR(14)
 bool
-RegistryT<ArgsT<TG_, TSL_, TRL_, NCC_, 0, 0, TRO_ HFSM2_IF_SERIALIZATION(, NSB_) HFSM2_IF_PLANS(, NTC_), TTP_>>::isPendingEnter(const StateID stateId) const noexcept {
-	if (HFSM2_CHECKED(stateId < STATE_COUNT))
-		if (Parent parent = stateParents[stateId]) {
+RegistryT<ArgsT<TG_, TSL_, TRL_, NCC_, 0, 0, TRO_ HFSM2_IF_SERIALIZATION(, NSB_) HFSM2_IF_PLANS(, NTC_), TTP_>>::isPendingActive(const StateID stateId) const noexcept {
+	// would the state be active once the requested sub-states are applied?
+	if (HFSM2_CHECKED(stateId < STATE_COUNT)) {
+		for (Parent parent = stateParents[stateId];
+			 parent;
+			 parent = forkParent(parent.forkId))
+		{
 			HFSM2_ASSERT(parent.forkId > 0);
 
-			return parent.prong != compoActive	 [parent.forkId - 1] &&
-				   parent.prong == compoRequested[parent.forkId - 1];
+			const Prong requested = compoRequested[parent.forkId - 1];
+			const Prong target	  = requested != INVALID_PRONG ?
+				requested : compoActive[parent.forkId - 1];
+
+			if (target != parent.prong)
+				return false;
 		}
 
+		return compoActive	 [ROOT_ID] != INVALID_PRONG
+			|| compoRequested[ROOT_ID] != INVALID_PRONG;
+	}
+
 	return false;
+}
+
+template <typename TG_, typename TSL_, typename TRL_, Long NCC_, typename TRO_ HFSM2_IF_SERIALIZATION(, Long NSB_) HFSM2_IF_PLANS(, Long NTC_), typename TTP_>
+HFSM2_CONSTEXPR(14)
+bool
+RegistryT<ArgsT<TG_, TSL_, TRL_, NCC_, 0, 0, TRO_ HFSM2_IF_SERIALIZATION(, NSB_) HFSM2_IF_PLANS(, NTC_), TTP_>>::isPendingEnter(const StateID stateId) const noexcept {
+	return !isActive(stateId) && isPendingActive(stateId);
 }
 
 template <typename TG_, typename TSL_, typename TRL_, Long NCC_, typename TRO_ HFSM2_IF_SERIALIZATION(, Long NSB_) HFSM2_IF_PLANS(, Long NTC_), typename TTP_>
 HFSM2_CONSTEXPR(14)
 bool
 RegistryT<ArgsT<TG_, TSL_, TRL_, NCC_, 0, 0, TRO_ HFSM2_IF_SERIALIZATION(, NSB_) HFSM2_IF_PLANS(, NTC_), TTP_>>::isPendingChange(const StateID stateId) const noexcept {
-	if (HFSM2_CHECKED(stateId < STATE_COUNT))
-		if (Parent parent = stateParents[stateId]) {
-			HFSM2_ASSERT(parent.forkId > 0);
-
-			return compoRequested[parent.forkId - 1] !=
-				   compoActive	 [parent.forkId - 1];
-		}
-
-	return false;
+	return isActive(stateId) != isPendingActive(stateId);
 }
 
 template <typename TG_, typename TSL_, typename TRL_, Long NCC_, typename TRO_ HFSM2_IF_SERIALIZATION(, Long NSB_) HFSM2_IF_PLANS(, Long NTC_), typename TTP_>
 HFSM2_CONSTEXPR(14)
 bool
 RegistryT<ArgsT<TG_, TSL_, TRL_, NCC_, 0, 0, TRO_ HFSM2_IF_SERIALIZATION(, NSB_) HFSM2_IF_PLANS(, NTC_), TTP_>>::isPendingExit(const StateID stateId) const noexcept {
-	if (HFSM2_CHECKED(stateId < STATE_COUNT))
-		if (Parent parent = stateParents[stateId]) {
-			HFSM2_ASSERT(parent.forkId > 0);
-
-			return parent.prong == compoActive	 [parent.forkId - 1] &&
-				   parent.prong != compoRequested[parent.forkId - 1];
-		}
-
-	return false;
+	return isActive(stateId) && !isPendingActive(stateId);
 }
 
 template <typename TG_, typename TSL_, typename TRL_, Long NCC_, typename TRO_ HFSM2_IF_SERIALIZATION(, Long NSB_) HFSM2_IF_PLANS(, Long NTC_), typename TTP_>
